@@ -628,3 +628,199 @@ class _ChanView:
     @property
     def v_closed(self):
         return getattr(self._G, f"closed{self._k}")
+
+
+# ----------------------------------------------------------------------------- concurrent senders on one gateway (C08, schedule part)
+
+class SenderScenario(Scenario):
+    """N threads call the real BaseGateway._send concurrently; the transport's write path is the real
+    {SocketIO,Popen2IO}.write down to the environment contract of the low-level object:
+      socket.sendall(data)  = a loop of partial send()s with no atomicity between them (POSIX / CPython: the GIL is released
+                              around each send) - modelled as two separately scheduled chunk appends;
+      BufferedWriter.write(data) + flush() = one atomic append (CPython's buffered objects hold an internal lock)."""
+
+    def __init__(self, transport: str, nsenders: int = 2):
+        from execnet import gateway_socket
+
+        ioclass = {"socket": gateway_socket.SocketIO, "popen": gb.Popen2IO}[transport]
+        self.transport, self.nsenders = transport, nsenders
+        self.model = py2ts.Model()
+        ns = dict(vars(gb))
+        classes = {"BaseGateway": gb.BaseGateway, "Message": gb.Message, ioclass.__name__: ioclass}
+        counts = {"BaseGateway": 1, "Message": nsenders, ioclass.__name__: 1, "List": 1, "Lock": 2, "Event": 0, "Set": 0, "ExecModel": 1}
+        sc = self
+
+        # wire tokens (python ints): payload of frame k = k; its header = k+20; header+payload joined = k+10;
+        # the remainder of a sendall(x) whose first part already went out = x+30
+        def s_sendall(comp, ctx, node, cur):
+            cur, data = comp.ev(ctx, node.args[0], cur)
+            wire = C(comp.U.classes["List"][0])
+            n1, n2 = comp.m.new_node(), comp.m.new_node()
+            comp.emit(ctx, cur, n1, updates=[(("lst.push", wire), data)], visible=True, info="sock.sendall: first part reaches the wire", node=node, sync="send")
+            comp.emit(ctx, n1, n2, updates=[(("lst.push", wire), ("padd", data, C(INT0 + 30)))], visible=True, info="sock.sendall: rest reaches the wire", node=node, sync="send")
+            return n2, C(NONE)
+
+        def s_bufwrite(comp, ctx, node, cur):
+            cur, data = comp.ev(ctx, node.args[0], cur)
+            wire = C(comp.U.classes["List"][0])
+            n1 = comp.m.new_node()
+            comp.emit(ctx, cur, n1, updates=[(("lst.push", wire), data)], visible=True, info="BufferedWriter.write: appended in one piece (the buffered object's own lock)", node=node, sync="send")
+            return n1, C(NONE)
+
+        def s_pack(comp, ctx, node, cur):
+            cur, cid = comp.ev(ctx, node.args[2], cur)      # struct.pack("!bii", msgcode, channelid, len)
+            return cur, ("padd", cid, C(INT0 + 20))
+
+        def s_join(comp, ctx, node, cur):
+            cur, payload = comp.ev(ctx, node.right, cur)
+            return cur, ("padd", payload, C(INT0 + 10))
+
+        stubs = {
+            "struct.pack": s_pack, "expr:header + self.data": s_join,
+            "sendall": s_sendall, "_write": s_bufwrite, "flush": lambda comp, ctx, node, cur: (cur, C(NONE)),
+            "isinstance": lambda comp, ctx, node, cur: (cur, C(TRUE)),
+        }
+        self.comp = py2ts.Compiler(self.model, ns, classes, counts, task_specs={}, extra_stubs=stubs, list_cap=4 * nsenders)
+        self.U = self.model.U
+        self.programs, self.static = {}, {}
+        self.gw = self.obj("BaseGateway")
+        self.io = self.obj(ioclass.__name__)
+        self.model.vars["F.BaseGateway._io[0]"] = self.io
+        if "execmodel" in self.model.classes[ioclass.__name__].fields:
+            self.model.vars[f"F.{ioclass.__name__}.execmodel[0]"] = self.U.classes["ExecModel"][0]
+        # locks the IO class creates in its __init__ (self.X = execmodel.Lock()/RLock()) exist from the start
+        import inspect as _inspect
+        import textwrap as _tw
+
+        lk = 0
+        try:
+            init = ast.parse(_tw.dedent(_inspect.getsource(ioclass.__init__))).body[0]
+            for node in ast.walk(init):
+                if isinstance(node, ast.Assign) and isinstance(node.targets[0], ast.Attribute) and "Lock()" in ast.unparse(node.value):
+                    self.model.vars[f"F.{ioclass.__name__}.{node.targets[0].attr}[0]"] = self.U.classes["Lock"][lk]
+                    lk += 1
+        except (OSError, TypeError):
+            pass
+        self.bad, self.observed, self.good_flags = [], [], []
+        for k in range(nsenders):
+            src = "def p(gw, cid, data):\n    gw._send(4, cid, data)\n    G.sent%d = 1\n" % k
+            args = {"gw": self.gw, "cid": INT0 + k + 1, "data": INT0 + k + 1}
+            self.thread(f"sender{k}", src, args=args)
+            self.static[f"sender{k}"] = (src, args, False)
+            self.bad += [("blocked", f"sender{k}"), ("uncaught", f"sender{k}", [])]
+            self.observed.append(f"sent{k}")
+            self.good_flags.append(f"sent{k}")
+        self.bad.append(("custom", "frames_interleaved_on_the_wire", self.interleaved, lambda g, d, b: bool(g.get("wire_bad"))))
+        self.build()
+
+    def witness(self, enc, K):
+        return self.all_sent(enc, K)
+
+    def observe_model(self, st):
+        n = st["lst.len[0]"]
+        wire = [st[f"lst.item[0][{i}]"] - INT0 for i in range(n)]
+        return {"wire": wire, "finished": sorted(t for t in self.static if st[f"pc.{t}"] == self.ts.end[t])}
+
+    def observe_real(self, ghost, done, blocked):
+        return {"wire": list(ghost.get("wire", [])), "finished": sorted(done)}
+
+    def replay(self, order, mode="sync"):
+        from execnet import gateway_socket
+
+        transport, N = self.transport, self.nsenders
+        wire = []
+
+        def env(sched, G):
+            em = _replay.ReplayExecModel(sched, "thread", {})
+            datas = {bytes([k + 1]) * 3: k + 1 for k in range(N)}
+
+            def token(b):
+                # which frame do these bytes belong to, and which part are they (model token arithmetic)
+                if len(b) == 12:
+                    return 10 + datas[b[9:]]         # header + payload in one piece
+                if len(b) == 9:
+                    return 20 + int.from_bytes(b[1:5], "big")
+                return datas[b]
+
+            class Sock:
+                def setsockopt(self, *a):
+                    pass
+
+                def sendall(self, b):
+                    t = token(b)
+                    sched.sync("send")
+                    wire.append(t)
+                    sched.sync("send")
+                    wire.append(t + 30)
+
+            class Out:
+                def write(self, b):
+                    sched.sync("send")
+                    wire.append(token(b))
+
+                def flush(self):
+                    pass
+
+            class In:
+                def read(self, n):
+                    return b""
+
+            io = gateway_socket.SocketIO(Sock(), em) if transport == "socket" else gb.Popen2IO(Out(), In(), em)
+            gw = gb.BaseGateway(io, "replay", _startcount=1)
+            d = {"GWOBJ": gw}
+            for k in range(N):
+                d[f"DATA{k}"] = bytes([k + 1]) * 3
+            return d
+
+        programs = {}
+        for k in range(N):
+            src, args, _ = self.static[f"sender{k}"]
+            programs[f"sender{k}"] = (src, {"gw": "GWOBJ", "cid": k + 1, "data": f"DATA{k}"}, False)
+        ghost, done, blocked, sched = _replay.run_schedule(programs, order, env, mode=mode, gates=self.line_gates() if mode == "line" else None)
+        ghost["wire"] = list(wire)
+        # same well-formedness rule as the model's, on the real wire
+        bad = False
+        for i, v in enumerate(wire):
+            nxt = wire[i + 1] if i + 1 < len(wire) else None
+            if transport == "socket":
+                if v < 30 and nxt != v + 30:
+                    bad = True
+                if 51 <= v <= 50 + N and nxt != v - 50:
+                    bad = True
+            elif 21 <= v <= 20 + N and nxt != v - 20:
+                bad = True
+        ghost["wire_bad"] = 1 if bad else 0
+        return ghost, done, blocked, sched
+
+    def interleaved(self, enc, K):
+        """the wire is not a concatenation of whole frames: some item is not followed by what must follow it -
+        the rest of its own sendall, or (header written separately) its own payload"""
+        n = 4 * self.nsenders
+        items = [enc.var(K, f"lst.item[0][{i}]") for i in range(n)]
+        ln = enc.var(K, "lst.len[0]")
+        N = self.nsenders
+        bad = []
+        for i in range(n - 1):
+            v, nxt = items[i], items[i + 1]
+            present = z3.UGT(ln, i + 1)
+            is_header = z3.And(z3.UGE(v, INT0 + 21), z3.ULE(v, INT0 + 20 + N))
+            is_rest = z3.UGE(v, INT0 + 30)
+            if self.transport == "socket":
+                bad.append(z3.And(present, z3.Not(is_rest), nxt != v + 30))                       # a first part needs its rest
+                rest_of_header = z3.And(z3.UGE(v, INT0 + 51), z3.ULE(v, INT0 + 50 + N))
+                bad.append(z3.And(present, rest_of_header, nxt != v - 50))                        # then the payload of that header
+            else:
+                bad.append(z3.And(present, is_header, nxt != v - 20))
+        # a dangling last item
+        for i in range(n):
+            v = items[i]
+            last = ln == i + 1
+            if self.transport == "socket":
+                bad.append(z3.And(last, z3.ULT(v, INT0 + 30)))
+                bad.append(z3.And(last, z3.UGE(v, INT0 + 51), z3.ULE(v, INT0 + 50 + N)))
+            else:
+                bad.append(z3.And(last, z3.UGE(v, INT0 + 21), z3.ULE(v, INT0 + 20 + N)))
+        return z3.And(z3.Not(enc.can_move(K)), z3.Or(bad))
+
+    def all_sent(self, enc, K):
+        return [enc.at_end(K, f"sender{k}") for k in range(self.nsenders)] + [enc.var(K, f"G.sent{k}") == INT0 + 1 for k in range(self.nsenders)]
